@@ -63,8 +63,8 @@ def overwrite (X : Ctx) : Nat → Nat → Nat → List SeqItem → VM (Except Un
         -- `*place = T::deserialize(d)?`: the old value is destroyed, then the new one is stored
         let p ← lift X (Gen.as_mut_ptr X.env)
         let old ← rd p i
-        dropElem X old
-        wr p i e
+        -- the new value is stored on the unwind path too (drop-and-replace)
+        guarded (dropElem X old) (wr p i e)
         overwrite X fuel (i + 1) n sc'
     else pure (.ok true, sc)
 
